@@ -44,6 +44,23 @@ func (c *Ctx) argSwapFuncs(rule string, funcs []*FuncInfo, only func(*types.Func
 			for i := 0; i < np; i++ {
 				pname[sig.Params().At(i).Name()] = i
 			}
+			// an argument handed over through a local defined once from another identifier
+			// (`withTips := compareTips`) also answers to that identifier's name
+			argNames := func(e ast.Expr) []string {
+				id, ok := unparen(e).(*ast.Ident)
+				if !ok {
+					return nil
+				}
+				names := []string{id.Name}
+				if lo, ok := info.Uses[id].(*types.Var); ok && !lo.IsField() {
+					if defs := localDefs(info, fi.Decl.Body, lo); len(defs) == 1 {
+						if src, ok := unparen(defs[0]).(*ast.Ident); ok {
+							names = append(names, src.Name)
+						}
+					}
+				}
+				return names
+			}
 			named := 0
 			for i := 0; i < np; i++ {
 				id, ok := unparen(call.Args[i]).(*ast.Ident)
@@ -51,6 +68,14 @@ func (c *Ctx) argSwapFuncs(rule string, funcs []*FuncInfo, only func(*types.Func
 					continue
 				}
 				j, ok := pname[id.Name]
+				if !ok {
+					for _, alt := range argNames(call.Args[i])[1:] {
+						if jj, has := pname[alt]; has {
+							j, ok = jj, true
+							id = &ast.Ident{NamePos: id.NamePos, Name: alt}
+						}
+					}
+				}
 				if !ok {
 					continue
 				}
@@ -60,7 +85,14 @@ func (c *Ctx) argSwapFuncs(rule string, funcs []*FuncInfo, only func(*types.Func
 				}
 				// arg i is named like parameter j: is arg j named like parameter i ?
 				if j < len(call.Args) {
-					if id2, ok := unparen(call.Args[j]).(*ast.Ident); ok && namedLike(id2.Name, sig.Params().At(i).Name()) && types.Identical(sig.Params().At(i).Type(), sig.Params().At(j).Type()) && i < j {
+					id2, ok2 := unparen(call.Args[j]).(*ast.Ident)
+					like := false
+					for _, nm := range argNames(call.Args[j]) {
+						if namedLike(nm, sig.Params().At(i).Name()) {
+							like = true
+						}
+					}
+					if ok2 && like && types.Identical(sig.Params().At(i).Type(), sig.Params().At(j).Type()) && i < j {
 						n++
 						c.Violation(rule, fmt.Sprintf("%s/%s(%s↔%s)", funcName(fi.Obj), fn.Name(), id.Name, id2.Name), call.Pos(), fmt.Sprintf("%s is called with `%s` in the position of parameter `%s` and `%s` in the position of parameter `%s` (same type): the two arguments are exchanged", fn.Name(), id.Name, sig.Params().At(i).Name(), id2.Name, sig.Params().At(j).Name())).Clause = clause
 					}
@@ -69,8 +101,8 @@ func (c *Ctx) argSwapFuncs(rule string, funcs []*FuncInfo, only func(*types.Func
 			if named >= 2 {
 				ok := true
 				for i := 0; i < np; i++ {
-					if id, isId := unparen(call.Args[i]).(*ast.Ident); isId {
-						if j, has := pname[id.Name]; has && j != i {
+					for _, nm := range argNames(call.Args[i]) {
+						if j, has := pname[nm]; has && j != i {
 							ok = false
 						}
 					}
